@@ -163,6 +163,23 @@ def _unit_task(task):
                         _family(part, sig + ":Scalar", scalar_forms(v, u, c, default), chk)
                         if v == VALUES[0] or thorough:
                             _family(part, sig + ":FractionScalar", fraction_forms(v, u, c, default))
+                    # the value may arrive as any python / numpy number: same object, and repr still evaluates back
+                    if default:
+                        ref = Scalar(1.5, u, c)
+                        for vname, nv in (("numpy.float64", np.float64(1.5)), ("numpy.float32", np.float32(1.5)), ("int", 3), ("numpy.int64", np.int64(3)), ("bool", True), ("numpy.float64 from an array", np.array([1.5, 2.0])[0]), ("numpy 0-d array item", np.array(1.5).item())):
+                            part.count("evaluations")
+                            want = ref if float(nv) == 1.5 else Scalar(float(nv), u, c)
+                            try:
+                                forms = [Scalar(nv, u), Scalar(nv, u, c), Scalar(c, nv, u), Scalar((nv, u)), Scalar(ObtainQuantity(u, c), nv), Scalar.CreateWithQuantity(ObtainQuantity(u, c), nv)]
+                                ok = all(f == want and want == f for f in forms)
+                                back = [eval(repr(f), {"Scalar": Scalar}) for f in forms]
+                                ok = ok and all(b == want for b in back) and all(type(f.GetValue()) is float for f in forms)
+                            except Exception as e:
+                                part.violation("%s:%s:value given as %s:raised" % (sig0, c, vname), {"error": repr(e)},
+                                               "import numpy as np\nfrom mc import worlds\nfrom barril.units import Scalar\nwith worlds.world('posc'):\n    s = Scalar(np.float64(1.5), %r, %r)\n    print(repr(s))\n    assert eval(repr(s), {'Scalar': Scalar}) == s\n" % (u, c))
+                                continue
+                            if not ok:
+                                part.violation("%s:%s:value given as %s:forms differ or repr does not evaluate back" % (sig0, c, vname), {"forms": [repr(f) for f in forms]})
                     # eval(repr(scalar))
                     for v in VALUES:
                         part.count("evaluations")
@@ -247,7 +264,105 @@ def _category_task(cats):
     return part
 
 
+# -- histories with registrations -------------------------------------------------------------------
+
+
+def _registration_histories(depth):
+    """Every sequence of <= depth steps on a fresh small database: category-less requests, registrations of
+    categories, Clear() + re-registration of the units with ANOTHER default category.  After every step the
+    category-less forms agree with the explicit forms for the default category the registrations imply."""
+    import itertools
+
+    from barril.units import UnitDatabase
+    from barril.units.posc import MakeBaseToCustomary, MakeCustomaryToBase
+
+    part = Part()
+
+    def units(db, default_category):
+        db.AddUnitBase("length", "metre", "m")
+        db.AddUnit("length", "centimetre", "cm", MakeBaseToCustomary(0.0, 0.01, 1.0, 0.0), MakeCustomaryToBase(0.0, 0.01, 1.0, 0.0), default_category)
+        db.AddUnitBase("time", "second", "s")
+
+    class St:
+        def __init__(self):
+            self.db = UnitDatabase()
+            units(self.db, None)
+            self.cats = {}  # category -> quantity type (the model)
+            self.dc = {"m": None, "cm": None, "s": None}  # default category given at registration
+
+    def expected(st, u):
+        qt = "time" if u == "s" else "length"
+        if st.dc[u]:
+            return st.dc[u]
+        return qt if st.cats.get(qt) == qt else None
+
+    def ask(st):
+        for u in ("m", "cm", "s"):
+            try:
+                Scalar(1.5, u)
+                Array([1.5], u)
+                st.db.GetDefaultCategory(u)
+            except Exception:
+                pass
+
+    def add(st, name, qt):
+        try:
+            st.db.AddCategory(name, qt)
+            st.cats[name] = qt
+        except Exception:
+            pass
+
+    def reload(st, dcat):
+        st.db.Clear()
+        st.cats = {}
+        units(st.db, dcat)
+        st.dc["cm"] = dcat
+
+    STEPS = [
+        ("ask category-less forms", ask),
+        ("AddCategory('length', 'length')", lambda st: add(st, "length", "length")),
+        ("AddCategory('time', 'time')", lambda st: add(st, "time", "time")),
+        ("AddCategory('well diameter', 'length')", lambda st: add(st, "well diameter", "length")),
+        ("Clear(); register again, cm with default_category='well diameter'", lambda st: reload(st, "well diameter")),
+        ("Clear(); register again, cm without default category", lambda st: reload(st, None)),
+    ]
+    for n in range(1, depth + 1):
+        for hist in itertools.product(range(len(STEPS)), repeat=n):
+            st = St()
+            with worlds.installed(st.db):
+                for i in hist:
+                    STEPS[i][1](st)
+                part.count("histories")
+                for u in ("m", "cm", "s"):
+                    part.count("evaluations")
+                    e = expected(st, u)
+                    sig = "C19:history: %s : then unit %r" % (" ; ".join(STEPS[i][0] for i in hist), u)
+                    if e is not None and e not in st.cats:
+                        # the unit names a default category that is not registered (yet): no form can be built
+                        e = None if st.cats.get("time" if u == "s" else "length") != ("time" if u == "s" else "length") else ("time" if u == "s" else "length")
+                        if st.dc[u]:
+                            continue  # dangling default category: outside the property
+                    try:
+                        s0 = Scalar(1.5, u)
+                        got = s0.GetCategory()
+                    except Exception as ex:
+                        got = None
+                    if got != e:
+                        part.violation(sig + ": Scalar(v, u) resolves category %r, the registrations imply %r" % (got, e), {})
+                        continue
+                    if e is not None:
+                        fam = [Scalar(1.5, u), Scalar((1.5, u)), Scalar(1.5, u, e), Scalar(e, 1.5, u), Scalar(ObtainQuantity(u, e), 1.5), Scalar(ObtainQuantity(u), 1.5)]
+                        arr = [Array([1.5], u), Array([1.5], u, e), Array(ObtainQuantity(u, e), [1.5])]
+                        if not all(a == fam[2] for a in fam) or not all(a == arr[1] for a in arr) or st.db.GetDefaultCategory(u) != e:
+                            part.violation(sig + ": construction forms differ", {"scalars": [repr(a) for a in fam], "arrays": [a.GetCategory() for a in arr]})
+                        part.add("nontrivial", ("reg-history", hist, u))
+                    part.add("outcomes", ("reg-history", e is None))
+    return part
+
+
 def _task(task):
+    if task[0] == "reg":
+        return _registration_histories(task[1])
     if task[0] == "units":
         return _unit_task(task[1])
     return _category_task(task[1])
@@ -260,6 +375,7 @@ def run(ctx):
     n = 64 if ctx.thorough else 32
     tasks = [("units", (qts[i::n], ctx.thorough)) for i in range(n)]
     tasks += [("cats", cats[i::8]) for i in range(8)]
+    tasks += [("reg", 5 if ctx.thorough else 4)]
     run_sharded(ctx, _task, tasks)
     c = ctx.part.counters
     ctx.level = "exploration"
